@@ -166,7 +166,13 @@ impl Stitch {
                         for err in index_hunks.take_errors() {
                             self.monitor.error(err);
                         }
-                        State::AfterBand(*band_id, Some(index_hunks.hunks_listed()))
+                        if index_hunks.listing_failed() {
+                            // Nothing is known about how far this band's index goes, so there
+                            // is no point from which an older band could safely take over.
+                            State::Done
+                        } else {
+                            State::AfterBand(*band_id, Some(index_hunks.hunks_listed()))
+                        }
                     }
                 }
                 State::BeforeBand(band_id) => {
@@ -190,7 +196,19 @@ impl Stitch {
                     }
                 }
                 State::AfterBand(band_id, hunks_listed) => {
-                    if self.archive.band_is_closed(*band_id).await.unwrap_or(false) {
+                    let is_closed = match self.archive.band_is_closed(*band_id).await {
+                        Ok(is_closed) => is_closed,
+                        Err(err) => {
+                            // Whether this band is complete is not known. Taking it for
+                            // incomplete would present entries of older bands as part of this
+                            // version (and, as the basis of a backup, let files pass as
+                            // unchanged since a version they have changed since).
+                            self.monitor.error(err);
+                            self.state = State::Done;
+                            return None;
+                        }
+                    };
+                    if is_closed {
                         trace!(?band_id, "band is closed; stitched iteration complete");
                         if let Some(hunks_listed) = *hunks_listed {
                             check_hunk_count(&self.archive, *band_id, hunks_listed, &self.monitor)
